@@ -544,6 +544,49 @@ func earlierAsk(snaps []*pokertable.Table, cur *pokertable.Table, playerID strin
 	return best
 }
 
+// ----- (5) the actor itself: deliveries to a busy actor are queued, one at a time, none dropped -----
+
+type slowRunner struct {
+	mu      sync.Mutex
+	in      int
+	maxIn   int
+	handled int
+	dwell   time.Duration
+}
+
+func (s *slowRunner) SetActor(a actor.Actor) {}
+func (s *slowRunner) UpdateTableState(t *pokertable.Table) error {
+	s.mu.Lock()
+	s.in++
+	if s.in > s.maxIn {
+		s.maxIn = s.in
+	}
+	s.mu.Unlock()
+	time.Sleep(s.dwell)
+	s.mu.Lock()
+	s.in--
+	s.handled++
+	s.mu.Unlock()
+	return nil
+}
+
+func deliveryCase(r *rand.Rand, snap *pokertable.Table) string {
+	k := 2 + r.Intn(4)
+	a := actor.NewActor()
+	sr := &slowRunner{dwell: time.Duration(2+r.Intn(6)) * time.Millisecond}
+	a.SetRunner(sr)
+	var wg sync.WaitGroup
+	for i := 0; i < k; i++ {
+		wg.Add(1)
+		go func() {
+			defer wg.Done()
+			a.UpdateTableState(snap)
+		}()
+	}
+	wg.Wait()
+	return fmt.Sprintf("ac deliver k=%d | handled=%d overlap=%d\n", k, sr.handled, sr.maxIn)
+}
+
 // pickPlayer: a participant of the snapshot's hand, preferably one the hand is asking something of
 // botCase: a fresh (non-humanised) bot runner is shown one hand state in which it is asked for a wager action, with its
 // stack put on an edge of the bot's amount logic (exactly the minimum bet, one above; exactly the minimum raise level,
@@ -821,6 +864,9 @@ func runActor(args []string) {
 		for _, l := range timed {
 			w.WriteString(l)
 			st.PlayerCases++
+		}
+		for k := 0; k < 40; k++ {
+			w.WriteString(deliveryCase(r, snaps[r.Intn(len(snaps))]))
 		}
 		w.WriteString("ac end\nac new h=900002 kind=observer\n")
 		for k := 0; k < *ocases; k++ {
